@@ -1,4 +1,5 @@
-use crate::{unhex_str, with_mt};
+use crate::{unhex_str, with_field, with_mt};
+use swift_mt_message::SwiftField;
 use dataflow_rs::engine::{AsyncFunctionHandler, FunctionConfig, message::Message};
 use serde_json::{Value, json};
 use std::sync::Arc;
@@ -175,6 +176,57 @@ pub fn run(rt: &tokio::runtime::Runtime, cols: &[&str]) -> Value {
                     Err(e) => err_json(&e),
                 }
             }, json!({"bad_case": "unknown type"}))
+        }
+        // body <MTnnn> <hex block-4 text>: T::parse_from_block4
+        "body" => {
+            let raw = match unhex_str(cols[2]) {
+                Ok(s) => s,
+                Err(e) => return json!({"bad_case": e}),
+            };
+            with_mt!(cols[1], T => {
+                match <T as SwiftMessageBody>::parse_from_block4(&raw) {
+                    Ok(m) => {
+                        let out = m.to_mt_string();
+                        // second pass: re-parse the serialisation (C02)
+                        let again = <T as SwiftMessageBody>::parse_from_block4(&out);
+                        let (again_ok, again_out, again_eq) = match &again {
+                            Ok(m2) => (true, m2.to_mt_string(), serde_json::to_value(m2).ok() == serde_json::to_value(&m).ok()),
+                            Err(_) => (false, String::new(), false),
+                        };
+                        json!({"ok": true, "block4": out, "json": serde_json::to_value(&m).unwrap_or(Value::Null),
+                               "again_ok": again_ok, "again_block4": again_out, "again_equal": again_eq,
+                               "again_err": again.err().map(|e| e.to_string())})
+                    }
+                    Err(e) => err_json(&e),
+                }
+            }, json!({"bad_case": "unknown type"}))
+        }
+        // fparse <FieldType> <letter or _> <hex content>: T::parse / T::parse_with_variant
+        "fparse" => {
+            let content = match unhex_str(cols[3]) {
+                Ok(s) => s,
+                Err(e) => return json!({"bad_case": e}),
+            };
+            let letter = if cols[2] == "_" { None } else { Some(cols[2].trim_start_matches('=')) };
+            with_field!(cols[1], T => {
+                let r = match letter {
+                    None => <T as SwiftField>::parse(&content),
+                    Some(l) => <T as SwiftField>::parse_with_variant(&content, Some(l), None),
+                };
+                match r {
+                    Ok(v) => {
+                        let ser = v.to_swift_string();
+                        let j = serde_json::to_value(&v).unwrap_or(Value::Null);
+                        // re-parse what was printed (field-level round trip)
+                        let body = match ser.strip_prefix(':').and_then(|s| s.find(':').map(|i| (&s[..i], &s[i + 1..]))) {
+                            Some((tag, c)) => json!({"tag": tag, "content": c}),
+                            None => Value::Null,
+                        };
+                        json!({"ok": true, "ser": ser, "json": j, "printed": body, "variant_tag": v.get_variant_tag()})
+                    }
+                    Err(e) => err_json(&e),
+                }
+            }, json!({"bad_case": format!("unknown field type {}", cols[1])}))
         }
         other => json!({"bad_case": format!("unknown op {other}")}),
     }
